@@ -35,6 +35,12 @@ func (e eng) Execute(plan any, prop string) runner.Outcome {
 	return Execute(e.t, p, prop)
 }
 func (e eng) Shrink(plan any) []any { return Shrink(plan.(*Plan)) }
+func (e eng) WithSchedule(plan any, decisions []string) any {
+	q := clonePlan(plan.(*Plan))
+	q.Sched = append([]string(nil), decisions...)
+	return q
+}
+func (e eng) ScheduleLen(plan any) int { return len(plan.(*Plan).Sched) }
 func (e eng) Decode(raw json.RawMessage) (any, error) {
 	var p Plan
 	err := json.Unmarshal(raw, &p)
